@@ -280,6 +280,10 @@ impl<'a> UserModel<'a> {
                 old_value,
             });
         }
+        // A cut also clears its source. That happens further down, once the target is
+        // written, but it is recorded here: replaying "clear the anchor of a dynamic array"
+        // erases its whole spill, which may overlap cells of the target.
+        let source_diffs_at = diff_list.len();
         self.model.range_clear_contents(target_area)?;
         // set the new values and styles
         for (target_row, target_column, old_value, old_style, new_value, style) in changes {
@@ -350,6 +354,7 @@ impl<'a> UserModel<'a> {
             }
         }
         if is_cut {
+            let source_diffs_from = diff_list.len();
             for row in source_first_row..=source_last_row {
                 for column in source_first_column..=source_last_column {
                     if (source_sheet == sheet) && seen_cells.contains(&(row, column)) {
@@ -431,6 +436,8 @@ impl<'a> UserModel<'a> {
                     });
                 }
             }
+            let source_diffs: Vec<Diff> = diff_list.drain(source_diffs_from..).collect();
+            diff_list.splice(source_diffs_at..source_diffs_at, source_diffs);
             // Update external formulas that reference cells in the moved area.
             // source_sheet is used here (not `sheet`) so cross-sheet paste works.
             let ext_area = Area {
